@@ -262,12 +262,12 @@ def campaign(ctx, ks):
             body += "Definition ps : list path := %s.\n" % lcd_par.coq_paths(r["paths"])
             body += "Definition expected : list entry := %s.\n" % lcd_par.coq_expected(r["lcd"])
             checks = ["agrees %d ps expected" % r["offset"]]
-            if name in fullpaths and fullpaths[name][2] and len(fullpaths[name][0]) <= 8000:
+            if name in fullpaths and fullpaths[name][2] and len(fullpaths[name][0]) <= 3000:
                 body += "Definition allp : list path := %s.\n" % lcd_par.coq_paths(fullpaths[name][0])
                 body += "Definition fulld : list entry := %s.\n" % lcd_par.coq_expected(full[name])
                 # hypothesis and conclusion of partial_sound, decided on the real data
                 checks.append("key_injb %d allp" % r["offset"])
-                checks.append("(let da := map snd (dedup %d [] allp) in forallb (fun p => existsb (eqb_of cmp_lp p) da) (map snd (dedup %d [] ps)))" % (r["offset"], r["offset"]))
+                checks.append("forallb (fun p => existsb (fun q => eqb_of cmp_lp p q) allp) ps")
                 checks.append("forallb (fun e => existsb (entry_eqb e) fulld) expected")
             body += 'Definition show := String.concat "" (map (fun b : bool => if b then "1" else "0") [%s]).\n' % "; ".join(checks)
             body += "Eval vm_compute in show.\n"
